@@ -48,16 +48,26 @@ finally:
     sh(f"git -C /repo worktree remove --force {wt}")
     shutil.rmtree(wt, ignore_errors=True)
 
-# run the checks against it
-rc, out = sh("git -C /repo diff --quiet")
-assert rc == 0, "/repo dirty"
+# run the checks against it: in a second scratch worktree with the change applied, selected through VERIF_REPO
+# (equivalent to `git -C /repo apply` + check + `git -C /repo checkout -- .`, but does not disturb other users of /repo;
+# set SEED_IN_REPO=1 to do it in /repo itself)
 results = {}
+in_repo = os.environ.get("SEED_IN_REPO") == "1"
+wt2 = "/repo"
 try:
-    rc, out = sh(f"git -C /repo apply {src}/patch.diff")
+    if in_repo:
+        rc, out = sh("git -C /repo diff --quiet")
+        assert rc == 0, "/repo dirty"
+    else:
+        wt2 = tempfile.mkdtemp(prefix="seedrun-")
+        os.rmdir(wt2)
+        rc, out = sh(f"git -C /repo worktree add --detach {wt2} HEAD")
+        assert rc == 0, out
+    rc, out = sh(f"git -C {wt2} apply {src}/patch.diff")
     assert rc == 0, out
     for c in checks:
         for _attempt in range(3):
-            rc, out = sh(f"./check {c} --tier quick", cwd="/verif")
+            rc, out = sh(f"./check {c} --tier quick", cwd="/verif", extra={"VERIF_REPO": wt2})
             if rc != 2:
                 break
             print("check broken (exit 2), retrying:", out[-400:])
@@ -65,7 +75,11 @@ try:
         lines = [l for l in out.splitlines() if l.startswith("VIOLATION") or l.startswith(c + " [")]
         results[c] = {"exit": rc, "lines": lines[-2:]}
 finally:
-    sh("git -C /repo checkout -- .")
+    if in_repo:
+        sh("git -C /repo checkout -- .")
+    else:
+        sh(f"git -C /repo worktree remove --force {wt2}")
+        shutil.rmtree(wt2, ignore_errors=True)
 meta["checks"] = results
 meta["caught_by"] = [c for c, r in results.items() if r["exit"] == 1]
 dst = f"/verif/seeded/{sid}"
